@@ -69,6 +69,8 @@ impl Story {
     }
 
     pub(crate) fn restore_state_snapshot(&mut self) {
+        #[cfg(feature = "verif-hooks")]
+        crate::verif::probe("snapshot_restored");
         // Patched state had temporarily hijacked our
         // VariablesState and set its own callstack on it,
         // so we need to restore that.
@@ -90,6 +92,8 @@ impl Story {
     }
 
     pub(crate) fn state_snapshot(&mut self) {
+        #[cfg(feature = "verif-hooks")]
+        crate::verif::probe("snapshot_taken");
         // tmp_state contains the new state and current state is stored in snapshot
         let mut tmp_state = self.state.copy_and_start_patching(false);
         std::mem::swap(&mut tmp_state, &mut self.state);
